@@ -1,73 +1,160 @@
 /-
-C02, joint model, all node kinds with one in-port (one-to-one, one-to-many), part 1: the node ghost is the
-abstract tracer state `ATracer.A` under the invariant `J` (`NodeProtocol.lean`); `JB` adds the id bound of the
-joint model (every id the node knows is below `next`), and the steps of the node model are restated for it.
+C02, joint model over the abstract tracer (`ATracer.A` under `J`, `NodeProtocol.lean`), part 1: the node's part of the
+ghost-log invariant per request – the derived packets in link order (`acts`) match its cells: a linked cell's packet
+is unlogged, a filled cell holds the reference answer of its packet – and helper facts.
+(The one-thread node relation `JB`/`NL` and the invariant `FlowH.HI` of classes T3/T4 were subsumed by `FlowM`/`FlowN`
+– class T5 – and removed; classes T3 and T4 are now corollaries of T5.)
 -/
 import Uniflow.Proofs.NodeProtocol
 import Uniflow.Proofs.FlowG15
 
 namespace Uniflow.FlowH
 open Uniflow.Tracer Uniflow.Node Uniflow.Flow Uniflow.FlowInv Uniflow.FlowG Uniflow.ATracer
+open Uniflow.ATracer (getL_setOrDel getL_aset)
 
-/-- node `nd` (one forward thread) refines the abstract tracer state `a`; every id it knows is `< nx` -/
-structure JB (nd : Node) (a : A) (nx : Nat) : Prop where
-  j : J nd a []
-  one : nd.threads.length = 1
-  bnd : ∀ k ∈ ids a.reqs ++ nd.threads.flatMap tids, k < nx
-  np : nd.panic = false
-  r0 : ∀ x ∈ a.reqs, x.r = 0
+theorem pend_nextPc_sub (o : Op) (ops : List Op) : ∀ k ∈ pendIds (nextPc ops), k ∈ pendIds (.emit (o :: ops)) := by
+  intro k hk
+  cases ops with
+  | nil => simp [nextPc, pendIds] at hk
+  | cons o' ops' =>
+    simp only [nextPc, pendIds] at hk ⊢
+    cases o with
+    | link s t => simp only [linkTargets]; split <;> simp [hk]
+    | write w q => simp [linkTargets, hk]
 
-theorem threads_one (nd : Node) (h : nd.threads.length = 1) : ∃ th, nd.threads = [th] := by
-  cases hl : nd.threads with
-  | nil => rw [hl] at h; simp at h
-  | cons t ts =>
-    cases ts with
-    | nil => exact ⟨t, rfl⟩
-    | cons _ _ => rw [hl] at h; simp at h
+def optl (l : List Pid) : Option (List Pid) := if l = [] then none else some l
 
-theorem jb_mono (nd : Node) (a : A) (nx nx' : Nat) (h : JB nd a nx) (hle : nx ≤ nx') : JB nd a nx' :=
-  ⟨h.j, h.one, fun k hk => Nat.lt_of_lt_of_le (h.bnd k hk) hle, h.np, h.r0⟩
+/-- the link targets still to come in the thread's program whose source is request `p` (`Link(p, p)` – the action
+returned its input packet – registers nothing) -/
+def remOps (p : Pid) : List Op → List Pid
+  | [] => []
+  | .link s t :: ops => if s = p then (if s = t then remOps p ops else t :: remOps p ops) else remOps p ops
+  | .write _ _ :: ops => remOps p ops
 
-/-- ids not yet used may be announced as the ids the next steps introduce -/
-theorem jb_fut (nd : Node) (a : A) (nx : Nat) (h : JB nd a nx) (fut : List Pid) (hnd : fut.Nodup)
-    (hf : ∀ k ∈ fut, nx ≤ k) : J nd a fut := by
-  refine ⟨h.j.strict, h.j.trel, h.j.inv, ?_, h.j.th⟩
-  intro k
-  have h0 := h.j.cnt k
-  simp only [List.count_nil, Nat.add_zero] at h0
-  by_cases hk : k ∈ fut
-  · have h1 : (ids a.reqs).count k = 0 := List.count_eq_zero.mpr (fun hm =>
-      Nat.lt_irrefl _ (Nat.lt_of_lt_of_le (h.bnd k (List.mem_append_left _ hm)) (hf k hk)))
-    have h2 : (nd.threads.flatMap tids).count k = 0 := List.count_eq_zero.mpr (fun hm =>
-      Nat.lt_irrefl _ (Nat.lt_of_lt_of_le (h.bnd k (List.mem_append_right _ hm)) (hf k hk)))
-    have h3 : fut.count k ≤ 1 := by rw [List.Nodup.count hnd]; split <;> omega
-    omega
-  · rw [List.count_eq_zero.mpr hk]; omega
+def remFor (pc : PC) (p : Pid) : List Pid :=
+  match pc with
+  | .emit ops => remOps p ops
+  | _ => []
 
-theorem jb_of_j (nd : Node) (a : A) (fut : List Pid) (nx : Nat) (hj : J nd a fut) : J nd a [] := by
-  refine ⟨hj.strict, hj.trel, hj.inv, ?_, hj.th⟩
-  intro k; have := hj.cnt k; simp only [List.count_nil]; omega
+def CellA (lg : Log) (n : Nat) (q : Pid) : Cell → Prop
+  | .linked q' => q' = q ∧ Unlogged lg q ∧ aget lg.owner q = some (qTag n)
+  | .written q' _ => q' = q
+  | .filled a => RA lg q a
 
-/-- every request of a one-reader node is on reader 0 -/
-theorem r0_of_answers (rs rs' : List Req) (ev : List Ev) (nr : Rid → List Pid) (h : Answers rs rs' ev nr)
-    (h0 : ∀ x ∈ rs, x.r = 0) (hn : ∀ r, r ≠ 0 → nr r = []) : ∀ x ∈ rs', x.r = 0 := by
-  intro x hx
-  apply Classical.byContradiction
-  intro hne
-  obtain ⟨popped, _, _, h3⟩ := h
-  have := h3 x.r
-  have e1 : rs.filter (fun y => y.r = x.r) = [] := by
-    apply List.filter_eq_nil_iff.mpr
-    intro y hy; simp only [decide_eq_true_eq]; rw [h0 y hy]; exact fun e => hne e.symm
-  rw [e1, hn x.r hne] at this
-  simp only [List.map_nil, List.append_nil] at this
-  have hm : x ∈ rs'.filter (fun y => y.r = x.r) := List.mem_filter.mpr ⟨hx, by simp⟩
-  have : (List.map (fun x => x.p) (List.filter (fun y => decide (y.r = x.r)) rs')) = [] := by
-    have h4 := congrArg List.length this
-    simp only [List.length_nil, List.length_append, List.length_map] at h4
-    apply List.eq_nil_of_length_eq_zero
-    simp only [List.length_map]; omega
-  rw [List.map_eq_nil_iff] at this
-  rw [this] at hm; simp at hm
+def ReqA (lg : Log) (n : Nat) (pc : PC) (x : Req) : Prop :=
+  match x.st with
+  | .direct _ => remFor pc x.p = []     -- written itself (the action returned its input packet); awaits the answer
+  | .cells cs => ∃ qs, All2 (CellA lg n) qs cs ∧ aget lg.acts x.p = optl (qs ++ remFor pc x.p) ∧
+      aget lg.echo x.p = none ∧ aget lg.sinkAns x.p = none ∧ aget lg.dels x.p = none ∧
+      (remFor pc x.p = [] ∨ allLinked cs = true) ∧
+      (∀ t ∈ remFor pc x.p, Unlogged lg t ∧ aget lg.owner t = some (qTag n))
+
+/-- a request that derived no packet and has its answer – itself (`Write(nil, in)`, a refused write of the request)
+or the answer to the write of the request packet itself –, not yet flushed -/
+def ReqE (lg : Log) (pc : PC) (x : Req) : Prop :=
+  ∃ ans, x.st = .cells [.filled ans] ∧ RA lg x.p ans ∧ remFor pc x.p = []
+
+def ReqB (lg : Log) (n : Nat) (pc : PC) (x : Req) : Prop := ReqA lg n pc x ∨ ReqE lg pc x
+
+theorem reqB_A (lg : Log) (n : Nat) (pc : PC) (x : Req) (h : ReqB lg n pc x)
+    (hne : ∀ v, x.st ≠ .cells [.filled v]) : ReqA lg n pc x := by
+  rcases h with h | ⟨v, e, _⟩
+  · exact h
+  · exact absurd e (hne v)
+
+/-- the out-writers the remaining program writes to exist in the pump -/
+def wOK : PC → Prop
+  | .emit ops => ∀ w q, Op.write (some w) q ∈ ops → w < maxW
+  | _ => True
+
+theorem cellA_ext (lg lg' : Log) (k : Pid) (hx : LogExt lg lg' k) (n : Nat) (q : Pid) (c : Cell)
+    (hk : ∀ q', c = .linked q' → q' ≠ k) (ho : ∀ q', c = .linked q' → aget lg'.owner q' = aget lg.owner q')
+    (h : CellA lg n q c) : CellA lg' n q c := by
+  cases c with
+  | linked q' =>
+    obtain ⟨e, hu, hw⟩ := h
+    subst e
+    exact ⟨rfl, unlogged_ext lg lg' k hx q' (hk q' rfl) hu, by rw [ho q' rfl]; exact hw⟩
+  | written q' w => exact h
+  | filled a => exact ra_ext lg lg' k hx q a h
+
+theorem all2_cellA_ext (lg lg' : Log) (k : Pid) (hx : LogExt lg lg' k) (n : Nat) : ∀ (qs : List Pid) (cs : List Cell),
+    (∀ q' ∈ linkedIds cs, q' ≠ k ∧ aget lg'.owner q' = aget lg.owner q') →
+    All2 (CellA lg n) qs cs → All2 (CellA lg' n) qs cs
+  | [], [], _, _ => trivial
+  | q :: qs, c :: cs, hk, h => by
+    refine ⟨cellA_ext lg lg' k hx n q c ?_ ?_ h.1, all2_cellA_ext lg lg' k hx n qs cs ?_ h.2⟩
+    · intro q' e; subst e; exact (hk q' (by simp [linkedIds])).1
+    · intro q' e; subst e; exact (hk q' (by simp [linkedIds])).2
+    · intro q' hq'
+      apply hk q'
+      cases c <;> simp [linkedIds, hq']
+  | [], _ :: _, _, h => absurd h (by simp [All2])
+  | _ :: _, [], _, h => absurd h (by simp [All2])
+
+theorem all2_linked (lg : Log) (n : Nat) : ∀ (qs : List Pid) (cs : List Cell), All2 (CellA lg n) qs cs →
+    ∀ q ∈ linkedIds cs, Unlogged lg q ∧ aget lg.owner q = some (qTag n)
+  | [], [], _, q, hq => by simp [linkedIds] at hq
+  | q0 :: qs, c :: cs, h, q, hq => by
+    cases c with
+    | linked q' =>
+      simp only [linkedIds, List.mem_cons] at hq
+      rcases hq with e | hq
+      · obtain ⟨e1, u, o⟩ := h.1; rw [e, e1]; exact ⟨u, o⟩
+      · exact all2_linked lg n qs cs h.2 q hq
+    | written q' w => exact all2_linked lg n qs cs h.2 q (by simpa [linkedIds] using hq)
+    | filled b => exact all2_linked lg n qs cs h.2 q (by simpa [linkedIds] using hq)
+  | [], _ :: _, h, _, _ => absurd h (by simp [All2])
+  | _ :: _, [], h, _, _ => absurd h (by simp [All2])
+
+theorem mem_updReq_cases (p : Pid) (f : RSt → RSt) : ∀ (rs : List Req) (y : Req), (rs.map (·.p)).Nodup →
+    y ∈ updReq p f rs → (y ∈ rs ∧ y.p ≠ p) ∨ ∃ x ∈ rs, x.p = p ∧ y = { x with st := f x.st }
+  | [], y, _, h => by simp [updReq] at h
+  | z :: zs, y, hnd, h => by
+    simp only [List.map_cons, List.nodup_cons] at hnd
+    simp only [updReq] at h
+    by_cases e : z.p = p
+    · rw [if_pos e] at h
+      simp only [List.mem_cons] at h
+      rcases h with h | h
+      · right; exact ⟨z, List.mem_cons_self, e, h⟩
+      · left
+        refine ⟨List.mem_cons_of_mem _ h, fun e2 => hnd.1 ?_⟩
+        rw [e, ← e2]; exact List.mem_map_of_mem h
+    · rw [if_neg e] at h
+      simp only [List.mem_cons] at h
+      rcases h with h | h
+      · left; rw [h]; exact ⟨List.mem_cons_self, e⟩
+      · rcases mem_updReq_cases p f zs y hnd.2 h with ⟨h1, h2⟩ | ⟨x, h1, h2, h3⟩
+        · left; exact ⟨List.mem_cons_of_mem _ h1, h2⟩
+        · right; exact ⟨x, List.mem_cons_of_mem _ h1, h2, h3⟩
+
+theorem nodup_p (rs : List Req) (h : (ids rs).Nodup) : (rs.map (·.p)).Nodup :=
+  (map_p_sublist rs).nodup h
+
+theorem optl_nil : optl [] = none := rfl
+
+theorem linked_in_idsR (x : Req) (cs : List Cell) (hst : x.st = .cells cs) (q : Pid) (hq : q ∈ linkedIds cs) :
+    q ∈ idsR x := by
+  simp only [idsR, hst, cellsOfSt, List.mem_cons]; right; exact linkedIds_sub_open cs q hq
+
+theorem wOK_next (o : Op) (ops : List Op) (h : wOK (.emit (o :: ops))) : wOK (nextPc ops) := by
+  cases ops with
+  | nil => trivial
+  | cons o' ops' => exact fun w q hm => h w q (List.mem_cons_of_mem _ hm)
+
+theorem remFor_next (p : Pid) (o : Op) (ops : List Op) :
+    remFor (.emit (o :: ops)) p =
+      (match o with | .link s t => if s = p then (if s = t then [] else [t]) else [] | .write _ _ => []) ++
+        remFor (nextPc ops) p := by
+  cases ops with
+  | nil =>
+    cases o with
+    | link s t => simp only [remFor, remOps, nextPc]; split <;> (try split) <;> simp
+    | write w q => simp [remFor, remOps, nextPc]
+  | cons o' ops' =>
+    cases o with
+    | link s t => simp only [remFor, remOps, nextPc]; split <;> (try split) <;> simp
+    | write w q => simp [remFor, remOps, nextPc]
 
 end Uniflow.FlowH
